@@ -52,6 +52,9 @@ type finding struct {
 
 // Ctx carries one check run.
 type Ctx struct {
+	// BatchSize overrides the number of cases Run hands to a worker at a
+	// time (default 64); the time budget is checked between batches.
+	BatchSize int
 	ID    string
 	Tier  string
 	Seed  int64
@@ -467,7 +470,11 @@ func oneLine(s string) string {
 // each case and returns nil or a failure. It returns true when gen completed
 // without the time budget expiring.
 func Run[T any](c *Ctx, gen func(emit func(T)), run func(T) *Fail) bool {
-	return RunBatch(c, 64, gen, func(ts []T) []*Fail {
+	size := 64
+	if c.BatchSize > 0 {
+		size = c.BatchSize // checks whose cases take seconds (external processes) use 1
+	}
+	return RunBatch(c, size, gen, func(ts []T) []*Fail {
 		out := make([]*Fail, len(ts))
 		for i, t := range ts {
 			out[i] = safeRun(run, t)
@@ -517,11 +524,18 @@ func RunBatch[T any](c *Ctx, size int, gen func(emit func(T)), run func([]T) []*
 	}
 	ch := make(chan []T, c.Workers*4)
 	var wg sync.WaitGroup
+	var dropped atomic.Bool
 	for w := 0; w < c.Workers; w++ {
 		wg.Add(1)
 		go func() {
 			defer wg.Done()
 			for batch := range ch {
+				if c.Expired() {
+					// the budget ran out with batches still queued: they are
+					// not run (and not counted); the run is reported as capped
+					dropped.Store(true)
+					continue
+				}
 				c.evals.Add(int64(len(batch)))
 				var fs []*Fail
 				func() {
@@ -583,7 +597,7 @@ func RunBatch[T any](c *Ctx, size int, gen func(emit func(T)), run func([]T) []*
 	}
 	close(ch)
 	wg.Wait()
-	return complete
+	return complete && !dropped.Load()
 }
 
 func safeRun[T any](run func(T) *Fail, t T) (f *Fail) {
